@@ -25,7 +25,13 @@ def main():
     np.seterr(all="ignore")
     mod = importlib.import_module(a.pid.lower())
     if a.replay:
-        return mod.replay(json.load(open(a.replay)))
+        obj = json.load(open(a.replay))
+        if hasattr(mod, "replay"):
+            return mod.replay(obj)
+        # generic replay: show the recorded failing input, then re-run the (deterministic, seeded)
+        # check that produced it; the same violation is reported again if it still exists
+        print(json.dumps({k: v for k, v in obj.items() if k not in ("log",)}, indent=1, default=str)[:6000])
+        return mod.main(a.tier, int(obj.get("seed", seed)))
     try:
         return mod.main(a.tier, seed)
     except Exception:
